@@ -56,3 +56,25 @@ contract("MidiMessage.parse_mido_message", params={"mido_message": "ref:MidoMsg"
                   ("control_change", f"implies({MM}.type == 'control_change', result.message_type == MessageType.CONTROL_CHANGE and result.control == {MM}.control and result.velocity == {MM}.value)"),
                   ("unknown_kinds_are_untyped", f"implies({MM}.type == 'other', is_none(result.message_type))")],
          props=["C12", "C13"])
+
+# ---------------------------------------------------------------- MidiTrack.parse_mido_track (C13: the load path loses / invents no message and keeps every delta time)
+TM = "result.messages"
+MT = "mido_track"
+MIDO_OK = lambda m: (f"not is_none({m}) and implies({m}.type == 'note_on' or {m}.type == 'note_off', not is_none({m}.velocity) and not is_none({m}.note))"
+                     f" and implies({m}.type == 'key_signature', not is_none({m}.key))")
+PARSED = lambda a, m: (f"not is_none({a}) and {a}.time == {m}.time and is_none({a}.time) == is_none({m}.time)"
+                       f" and implies({m}.type == 'note_on' and {m}.velocity > 0, {a}.message_type == MessageType.NOTE_ON and {a}.note == {m}.note and {a}.velocity == {m}.velocity)"
+                       f" and implies(({m}.type == 'note_on' and {m}.velocity == 0) or {m}.type == 'note_off', {a}.message_type == MessageType.NOTE_OFF and {a}.note == {m}.note)"
+                       f" and implies({m}.type == 'time_signature', {a}.message_type == MessageType.TIME_SIGNATURE and {a}.numerator == {m}.numerator and {a}.denominator == {m}.denominator)"
+                       f" and implies({m}.type == 'key_signature', {a}.message_type == MessageType.KEY_SIGNATURE and {a}.key == {m}.key)")
+contract("MidiTrack.parse_mido_track", params={"mido_track": "list:ref:MidoMsg"}, result="ref:MidiTrack", allocates=True,
+         requires=[f"forall(0, len({MT}), lambda q: {MIDO_OK(MT + '[q]')})"],
+         modifies={},
+         ensures=[("one_message_per_file_message", f"not is_none(result) and fresh(result) and fresh({TM}) and len({TM}) == len({MT})"),
+                  ("same_delta_times_and_content", f"forall(0, len({MT}), lambda q: {PARSED(TM + '[q]', MT + '[q]')})"),
+                  ("wait_sum_kept", f"wsum({TM}, len({TM}), 'time') == wsum({MT}, len({MT}), 'time')")],
+         loops={"L0": dict(fingerprint="for msg in mido_track", inv=[
+             ("building", f"not is_none(track) and fresh(track) and allocated(track) and fresh(track.messages) and allocated(track.messages) and track.messages != {MT} and len(track.messages) == i"),
+             ("parsed_so_far", f"forall(0, i, lambda q: allocated(track.messages[q]) and {PARSED('track.messages[q]', MT + '[q]')})"),
+             ("wait_sum_so_far", f"wsum(track.messages, i, 'time') == wsum({MT}, i, 'time')")])},
+         props=["C13"])
